@@ -564,6 +564,97 @@ pub fn floating_strategy() -> impl Strategy<Value = Floating> {
 }
 
 // ---------------------------------------------------------------------------------------
+// every picture line is fetched alike
+
+/// The ULA fetches each of the 192 picture lines in the same way, so whether an unclaimed read
+/// shows a fetched byte or 0xFF depends only on the position within the line: two reads at the same
+/// offset from the start of two different picture lines (no screen byte is 0xFF) are either both
+/// 0xFF or both a byte of their line.
+#[derive(Clone, Debug, Serialize, Deserialize)]
+pub struct LinesAlike {
+    pub machine: Machine,
+    pub latch: u8,
+    pub y1: u8,
+    pub y2: u8,
+    /// instruction start relative to (start of the line's fetch window - 24)
+    pub o: u16,
+    pub port: u16,
+    pub seed: u64,
+}
+
+pub fn check_lines_alike(c: &LinesAlike, rec: &mut Rec) -> Result<(), String> {
+    let machine = c.machine;
+    let cfg = Config { machine, kempston: false, mouse: false, claims: None };
+    let (devs, possibly) = decode(&cfg, c.port, false);
+    if !devs.is_empty() || possibly {
+        return Ok(());
+    }
+    let (y1, y2) = (c.y1 as u64 % 192, c.y2 as u64 % 192);
+    if y1 == y2 {
+        return Ok(());
+    }
+    let mut e = mk_emu(&EmuOpts::new(machine));
+    let mut mm = MemModel::new(machine, mach::rom_images(machine));
+    mach::poke_bytes(&mut e, &mut mm, STUB, &[0xED, 0x78]);
+    let banks: &[u8] = if machine == Machine::K48 { &[0] } else { &[5, 7] };
+    for b in banks {
+        let page = e.verif_ram_page_mut(*b);
+        for off in 0..6912 {
+            page[off] = screen_byte(c.seed, *b, off);
+        }
+    }
+    let latch = c.latch & 0x0F;
+    if machine == Machine::K128 {
+        e.verif_set_paging(latch);
+    }
+    let first_pixel = machine.t0() as u64 + 1;
+    let line = machine.line_len() as u64;
+    let o = c.o as u64 % 201;
+    let mut got = [0u8; 2];
+    let mut ts = [0u64; 2];
+    for (i, y) in [y1, y2].iter().enumerate() {
+        let t = first_pixel + y * line + o - 24;
+        ts[i] = t;
+        e.verif_set_frame_clocks(t as usize);
+        got[i] = port_in(&mut e, c.port)?;
+        rec.eval();
+    }
+    if (got[0] == 0xFF) != (got[1] == 0xFF) {
+        return Err(format!(
+            "unclaimed port {:#06x} (latch {:#04x}): the read started at frame T {} (picture line {}) returned {:#04x}, the read started at T {} (picture line {}, same position within the line) returned {:#04x} — the ULA fetches every picture line alike and no screen byte is 0xFF, so both must be 0xFF or both a fetched byte",
+            c.port, latch, ts[0], y1, got[0], ts[1], y2, got[1]
+        ));
+    }
+    if got[0] != 0xFF {
+        rec.nontrivial(fnv(format!("{:?}", c).as_bytes()));
+        rec.class("both reads show a fetched byte");
+    } else {
+        rec.class("both reads 0xFF");
+    }
+    if y1 == 0 || y2 == 0 {
+        rec.class("first picture line involved");
+    }
+    if y1 == 191 || y2 == 191 {
+        rec.class("last picture line involved");
+    }
+    Ok(())
+}
+
+pub fn lines_alike_strategy() -> impl Strategy<Value = LinesAlike> {
+    let y = || prop_oneof![2 => Just(0u8), 1 => Just(191u8), 1 => Just(1u8), 1 => Just(64u8), 4 => 0u8..192];
+    (
+        prop_oneof![Just(Machine::K48), Just(Machine::K128)],
+        any::<u8>(),
+        y(),
+        y(),
+        0u16..=200,
+        prop_oneof![Just(0x00FFu16), Just(0x40FF), Just(0xFFFF), any::<u16>().prop_map(|p| p | 0x0003)],
+        any::<u64>(),
+    )
+        .prop_map(|(machine, latch, y1, y2, o, port, seed)| LinesAlike { machine, latch, y1, y2, o, port, seed })
+}
+
+// ---------------------------------------------------------------------------------------
 // the extender's claims are consulted at every access
 
 #[derive(Clone, Debug, Serialize, Deserialize)]
@@ -709,6 +800,7 @@ pub fn run(run: &mut Run) {
     run.enumerate("address-sweep", items, true, check_block);
     let t = run.tier;
     run.explore("floating-bus", t.pick(60_000, 20_000_000), floating_strategy, check_floating);
+    run.explore("floating-bus-lines-alike", t.pick(40_000, 4_000_000), lines_alike_strategy, check_lines_alike);
     run.explore("extender-claims-change", t.pick(20_000, 1_000_000), claims_strategy, check_claims);
 }
 
@@ -716,13 +808,14 @@ pub fn replay(run: &mut Run, phase: &str, case: &serde_json::Value) -> Result<()
     match phase {
         "address-sweep" => run.replay_one::<Block, _>(phase, case, check_block),
         "floating-bus" => run.replay_one::<Floating, _>(phase, case, check_floating),
+        "floating-bus-lines-alike" => run.replay_one::<LinesAlike, _>(phase, case, check_lines_alike),
         "extender-claims-change" => run.replay_one::<ClaimCase, _>(phase, case, check_claims),
         _ => Err(format!("unknown phase {}", phase)),
     }
 }
 
 pub const LEVEL: &str = "exploration";
-pub const RULE: &str = "address-sweep: all 65536 port addresses x {IN A,(C), OUT (C),A} executed by the emulated CPU on 6 device configurations (machine x Kempston x mouse) plus configurations with an I/O extender whose claim predicate is generated (incl. claims overlapping ULA, paging and AY addresses); device states are made distinguishable first (distinct half-rows, joystick byte, mouse counters, 16 distinct AY registers, border, paging latch). An address is judged for routing only if the decode predicates of the property select exactly one device for that direction (or none: reads must give 0xFF in border time, writes must change nothing); every access also checks that no other device's state changed and that the extender log contains exactly the claimed accesses. floating-bus: unclaimed reads at generated beam positions and screen contents, both 128K screen banks. extender-claims-change: histories of IN/OUT over a small pool of ports interleaved with the host changing what the extender claims (editing the attached extender or attaching a new one); after every access the extender's log must hold exactly what the claims in force at that moment demand. non-trivial = judged address other than the canonical ports the pinned tests use (floating: read inside the fetch window); distinct = (direction, address, configuration)";
+pub const RULE: &str = "address-sweep: all 65536 port addresses x {IN A,(C), OUT (C),A} executed by the emulated CPU on 6 device configurations (machine x Kempston x mouse) plus configurations with an I/O extender whose claim predicate is generated (incl. claims overlapping ULA, paging and AY addresses); device states are made distinguishable first (distinct half-rows, joystick byte, mouse counters, 16 distinct AY registers, border, paging latch). An address is judged for routing only if the decode predicates of the property select exactly one device for that direction (or none: reads must give 0xFF in border time, writes must change nothing); every access also checks that no other device's state changed and that the extender log contains exactly the claimed accesses. floating-bus: unclaimed reads at generated beam positions and screen contents, both 128K screen banks. floating-bus-lines-alike: two unclaimed reads at the same position (swept over 200 T-states around the fetch window) within two different picture lines, first and last line favoured, no screen byte 0xFF: both 0xFF or both a fetched byte (non-trivial = both show a byte). extender-claims-change: histories of IN/OUT over a small pool of ports interleaved with the host changing what the extender claims (editing the attached extender or attaching a new one); after every access the extender's log must hold exactly what the claims in force at that moment demand. non-trivial = judged address other than the canonical ports the pinned tests use (floating: read inside the fetch window); distinct = (direction, address, configuration)";
 pub const ASSUMPTIONS: &[&str] = &[
     "decode predicates are written from the property text; the Kempston mouse is judged only at xxDF addresses with (A8,A10) in {(0,0),(1,0),(1,1)}, and any other A0=1/A5=0/A7=1 address is treated as possibly-mouse (not judged) when a mouse is attached; addresses with A7=0 are never mouse addresses",
     "device state is observed through border_color(), the paging hook and the canonical AY ports 0xFFFD/0xBFFD",
